@@ -274,5 +274,5 @@ def gen(ch, tier):
 
 def plan(tier):
     if tier == "quick":
-        return {"streams": {"main": 2400}, "shards": 16}
+        return {"streams": {"main": 8000}, "shards": 16}
     return {"streams": {"main": 40000}, "shards": 16}
